@@ -23,6 +23,7 @@ pub fn gen_input(r: &mut Rng, corpus: &Corpus) -> (Vec<u8>, &'static str) {
                 scramble: r.chance(1, 5),
                 near_object_points: r.chance(1, 3),
                 all_keys: r.chance(3, 4),
+                near_times: r.chance(1, 5),
                 ..osu::Cfg::default()
             };
             (osu::gen_map(r, &cfg).text().into_bytes(), "grammar-accepted")
